@@ -129,6 +129,8 @@ pub fn stress_menu_b() -> Vec<String> {
         "multiclass X<int p = !cond(true: 1)> : Y<p> { defvar v = p; def _a : X; }",
         // bit ranges whose piece sizes do not fit the arithmetic they are summed in
         "def X : Y { bits<4> b = 0; bit c = b{0-9223372036854775807, 0-9223372036854775807}; bits<2> d = b{9223372036854775807...0, 1}; int e = b{-9223372036854775808}; }",
+        // widths and indices at the edge of the integer range, summed by a brace literal, used as list indices
+        "def X : Y { bits<9223372036854775807> a; bits<8> b = { a, a, a }; bits<8> c = { a{0-9223372036854775807}, a{0-9223372036854775807} }; list<int> l = [1]; int m = l[9223372036854775807]; list<int> n = l[0...9223372036854775807]; }",
         // one let over two defs whose classes each declare the field, with an untyped value and with some bits only
         "class P1 { bits<4> f = 0; } class P2 { bits<4> f = 0; } let f = !cond(true: 1) in { def X : P1; def Y : P2; } let f<0> = 1 in { def X1 : P2; def Y1 : P1; }",
     ];
@@ -324,6 +326,25 @@ pub fn for_each_workspace(tier: Tier, ctx: &mut Ctx, mut f: impl FnMut(&mut Ctx,
                 stratum: "nested-include",
                 focus: None,
             };
+            if !f(ctx, &case) {
+                return;
+            }
+        }
+    }
+    // 2d. a top-level let whose binding no record of its own body takes, followed by an include (and an
+    // included file that ends in such a let, followed by more statements of the includer): whatever is
+    // reported about the value stays in the file the value is written in
+    for bi in 0..m {
+        if !ctx.mine() {
+            continue;
+        }
+        let decls = "class A<int a> { int f = a; }\nclass B<int a> { int f = a; }\n";
+        let pending = "let f = \"a value of the wrong type, written far from the start of its file: é😀\" in def plain;\nlet f = [1, 2] in { def plain2; }\n";
+        for (root, inc) in [
+            (format!("{decls}{LONG_PREAMBLE}{pending}include \"b.td\"\ndef tail : A<1>;"), format!("{}\ndef op : B<2>;", menu[bi])),
+            (format!("{decls}include \"b.td\"\n{}\ndef tail : A<1>;", menu[bi]), format!("{LONG_PREAMBLE}{pending}")),
+        ] {
+            let case = WsCase { files: vec![("/ws/a.td".into(), root), ("/ws/b.td".into(), inc)], root: "/ws/a.td".into(), stratum: "pending-let-include", focus: None };
             if !f(ctx, &case) {
                 return;
             }
